@@ -347,6 +347,22 @@ fn scenarios(tier: Tier) -> Vec<Vec<Vec<Op>>> {
     v
 }
 
+/// A setter that reports "already set" tells which values it did NOT install; when the program sets the
+/// same value in two places, the value in force may be that very value, installed by the other one.
+fn widen(v: u8, op: Op, prog: &[Vec<Op>]) -> u8 {
+    let bit = match op {
+        Op::SetA => A,
+        Op::SetB => B,
+        Op::Use => return v,
+    };
+    let same = prog.iter().flatten().filter(|o| **o == op).count();
+    if v & bit == 0 && same >= 2 {
+        v | bit
+    } else {
+        v
+    }
+}
+
 fn run_scenario(setting: Arc<dyn Setting>, program: Vec<Vec<Op>>, st: &mut Stats, order: u64) {
     let executions = Arc::new(AtomicU64::new(0));
     let steps0 = verif_once::steps();
@@ -365,10 +381,10 @@ fn run_scenario(setting: Arc<dyn Setting>, program: Vec<Vec<Op>>, st: &mut Stats
                 let log: Arc<Mutex<Vec<(usize, Op, u8)>>> = Arc::new(Mutex::new(vec![]));
                 let mut hs = vec![];
                 for (ti, ops) in prog.iter().enumerate() {
-                    let (s, ops, log) = (setting.clone(), ops.clone(), log.clone());
+                    let (s, ops, log, whole) = (setting.clone(), ops.clone(), log.clone(), prog.clone());
                     hs.push(shuttle::thread::spawn(move || {
                         for op in ops {
-                            let v = s.run(op);
+                            let v = widen(s.run(op), op, &whole);
                             log.lock().unwrap().push((ti, op, v));
                         }
                     }));
@@ -692,7 +708,7 @@ fn main() {
         for t in order {
             let op = prog[t][next[t]];
             next[t] += 1;
-            log.push((t, op, setting.run(op)));
+            log.push((t, op, widen(setting.run(op), op, &prog)));
         }
         let fin = setting.settle();
         let firsts: u8 = prog.iter().fold(0, |m, ops| m | setting.installs(ops[0]));
